@@ -217,6 +217,25 @@ def _tls(ctx: Context, tree: str, N: Names) -> None:
             ctx_same = kw.get("ssl_context") is not None and norm(alpn_calls[0].func.value) in [x.split("(")[0] for x in ["ssl_context"]]
             ok = ok and ctx_same
         rep.ob("C10.R5", fkey(tree, f, "alpn"), ok, where(f, alpn_calls[0] if alpn_calls else None), f"ALPN offered with http2 on/off: {vals}")
+        # the (possibly shared) context is configured immediately before the handshake: nothing that can block or suspend
+        # on the network lies between set_alpn_protocols and start_tls
+        if alpn_calls:
+            cfg = ctx.cfg(f)
+            sn = cfg.nodes_for(alpn_calls[0])
+            tn = cfg.nodes_for(s.node)
+            between = []
+            if sn and tn:
+                reach = cfg.reachable([e.dst for e in sn[0].succ if e.kind != "exc"], follow=lambda e: e.kind != "exc", stop=lambda n: n is tn[0])
+                blocking_ids = {id(s2.node) for s2, op2 in net_sites(ctx, [f])}
+                for n in cfg.nodes:
+                    if n.id in reach and n is not tn[0] and n.ast is not None and n.kind == "stmt":
+                        if any(id(x) in blocking_ids for x in ast.walk(n.ast)):
+                            between.append(n)
+            okb = bool(sn) and bool(tn) and cfg.dominates(sn[0], tn[0]) and not between
+            rep.ob("C10.R5", fkey(tree, f, "alpn-set-before-handshake"), okb, where(f, alpn_calls[0]),
+                   "ALPN is set on the context right before its handshake (no network operation in between)" if okb else
+                   f"a network operation ({between[0].text() if between else 'path'}) lies between set_alpn_protocols and start_tls: another connection sharing the SSLContext can "
+                   "overwrite the ALPN list meanwhile, so h2 is offered (and spoken) although HTTP/2 is disabled")
     # R6 HTTP/2 selection
     nsel = 0
     for mod, q in (("connection", "AsyncHTTPConnection.handle_async_request"), ("socks_proxy", "AsyncSocks5Connection.handle_async_request"),
